@@ -175,3 +175,147 @@ func lastLines(s string, n int) string {
 	}
 	return r
 }
+
+// ---- seeded breakages as a regression of the checker (thorough tier) ----
+
+type seedMeta struct {
+	Property string   `json:"property"`
+	Variant  string   `json:"variant"`
+	Rules    []string `json:"detected_by_rules"`
+	Detected bool     `json:"detected"`
+}
+
+// runSeeds re-applies, in memory, every independently written breakage of this property that the
+// property's own rules are recorded to detect, and requires the check to refuse each of them.
+// Patches that no longer apply to /repo's current source are skipped.
+func runSeeds(prop, repo, verifDir string) ([]mutantResult, []string) {
+	self, err := os.Executable()
+	if err != nil {
+		return nil, []string{"cannot locate own executable: " + err.Error()}
+	}
+	mine := map[string]bool{}
+	for _, r := range propRules[prop] {
+		mine[r] = true
+	}
+	dirs, _ := filepath.Glob(filepath.Join(verifDir, "seeded", prop+"-*"))
+	sort.Strings(dirs)
+	type job struct {
+		dir   string
+		rules []string
+	}
+	var jobs []job
+	for _, d := range dirs {
+		b, err := os.ReadFile(filepath.Join(d, "meta.json"))
+		if err != nil {
+			continue
+		}
+		var m seedMeta
+		if json.Unmarshal(b, &m) != nil || !m.Detected {
+			continue
+		}
+		var rs []string
+		for _, r := range m.Rules {
+			if mine[r] {
+				rs = append(rs, r)
+			}
+		}
+		if len(rs) > 0 {
+			jobs = append(jobs, job{d, rs})
+		}
+	}
+	results := make([]mutantResult, len(jobs))
+	var wg sync.WaitGroup
+	sem := make(chan struct{}, 4)
+	for i, j := range jobs {
+		wg.Add(1)
+		go func(i int, j job) {
+			defer wg.Done()
+			sem <- struct{}{}
+			defer func() { <-sem }()
+			results[i] = runOneSeed(self, prop, j.dir, j.rules, repo, verifDir)
+		}(i, j)
+	}
+	wg.Wait()
+	var failures []string
+	for _, r := range results {
+		if r.Outcome == "missed" {
+			failures = append(failures, fmt.Sprintf("selftest: seeded breakage %s is no longer reported by this check (recorded rules: %s; %s)", r.ID, r.Rule, r.Detail))
+		}
+	}
+	return results, failures
+}
+
+func runOneSeed(self, prop, dir string, rules []string, repo, verifDir string) mutantResult {
+	res := mutantResult{ID: filepath.Base(dir), Kind: "seed", Rule: strings.Join(rules, " ")}
+	patch := filepath.Join(dir, "patch.head.diff")
+	if _, err := os.Stat(patch); err != nil {
+		patch = filepath.Join(dir, "patch.diff")
+	}
+	pb, err := os.ReadFile(patch)
+	if err != nil {
+		res.Outcome, res.Detail = "skipped", "no patch"
+		return res
+	}
+	var files []string
+	for _, l := range strings.Split(string(pb), "\n") {
+		if strings.HasPrefix(l, "+++ b/") {
+			files = append(files, strings.TrimSpace(strings.TrimPrefix(l, "+++ b/")))
+		}
+	}
+	tmp, err := os.MkdirTemp("", "verifseed")
+	if err != nil {
+		res.Outcome, res.Detail = "skipped", err.Error()
+		return res
+	}
+	defer os.RemoveAll(tmp)
+	for _, f := range files {
+		src, err := os.ReadFile(filepath.Join(repo, f))
+		dst := filepath.Join(tmp, "src", f)
+		os.MkdirAll(filepath.Dir(dst), 0o755)
+		if err == nil {
+			os.WriteFile(dst, src, 0o644)
+		}
+	}
+	cmd := exec.Command("patch", "-p1", "-s", "-F0", "--no-backup-if-mismatch", "-d", filepath.Join(tmp, "src"), "-i", patch)
+	if out, err := cmd.CombinedOutput(); err != nil {
+		res.Outcome, res.Detail = "skipped", "patch no longer applies to the current source: "+lastLines(string(out), 1)
+		return res
+	}
+	var ov []string
+	for _, f := range files {
+		if _, err := os.Stat(filepath.Join(tmp, "src", f)); err == nil && strings.HasSuffix(f, ".go") {
+			ov = append(ov, f+"="+filepath.Join(tmp, "src", f))
+		}
+	}
+	ev := filepath.Join(tmp, "ev")
+	os.MkdirAll(ev, 0o755)
+	if kf, err := os.ReadFile(filepath.Join(verifDir, "known_findings.json")); err == nil {
+		os.WriteFile(filepath.Join(ev, "known_findings.json"), kf, 0o644)
+	}
+	args := []string{"-repo", repo, "-verif", ev, "-overlay", strings.Join(ov, ","), "-tier", "quick", "-rules", strings.Join(rules, ","), "check", prop}
+	c2 := exec.Command(self, args...)
+	c2.Env = append(os.Environ(), "VERIF_SELFTEST=1")
+	out, _ := c2.CombinedOutput()
+	code := c2.ProcessState.ExitCode()
+	text := string(out)
+	switch {
+	case code == 1:
+		res.Outcome = "detected"
+		for _, l := range strings.Split(text, "\n") {
+			if strings.Contains(l, ": [") && !strings.HasPrefix(l, "VIOLATION") {
+				if len(l) > 200 {
+					l = l[:200]
+				}
+				res.Detail = l
+				break
+			}
+		}
+	case code == 2 && strings.Contains(text, "type-check errors"):
+		res.Outcome, res.Detail = "skipped", "the patched source does not type-check against the current tree"
+	case code == 2:
+		res.Outcome, res.Detail = "detected", "checker refused to pass: "+lastLines(text, 1)
+	default:
+		res.Outcome, res.Detail = "missed", fmt.Sprintf("exit %d", code)
+	}
+	return res
+}
